@@ -170,14 +170,14 @@ def _get_active_backend(
             f"expected one of {VALID_BACKEND_CONSTRAINTS}"
         )
     if prefer == "processes" and require == "sharedmem":
-        if explicit_prefer == explicit_require:
+        if explicit_prefer and explicit_require:
             raise ValueError(
                 "prefer == 'processes' and require == 'sharedmem' are "
                 "inconsistent settings"
             )
-        # The hint and the constraint come from different levels (one is
-        # explicit, the other is inherited from a context): prefer is only a
-        # hint, the constraint has to be met.
+        # The hint or the constraint is inherited from an enclosing context
+        # (possibly from two nested blocks): prefer is only a hint, the
+        # constraint has to be met.
         prefer = None
 
     explicit_backend = True
